@@ -39,7 +39,7 @@ type Result struct {
 	Assumptions  []string
 	Trusted      []string
 	Configs      []string
-	Fatal        []string // analysis could not run: anchors missing etc. (exit 2)
+	Fatal        []string // analysis could not run: anchors missing etc. (reported like a failed obligation: exit 1)
 	Extra        map[string]interface{}
 	ordinals     map[string]int
 	MutantsTried int
@@ -434,10 +434,12 @@ func finish(res *Result, prop, tier string, seed int, verif string, start time.T
 	wall := time.Since(start).Seconds()
 	code := 0
 	if len(res.Fatal) > 0 {
+		// an anchor that is gone, a form the rules cannot read, a tree that does not type-check: the property is
+		// not shown to hold, which is reported like any other failed obligation
 		for _, f := range res.Fatal {
-			fmt.Fprintf(os.Stderr, "%s: ANALYSIS-ERROR %s\n", prop, f)
+			fmt.Printf("%s/ANALYSIS-ERROR %s\n", prop, f)
 		}
-		code = 2
+		code = 1
 	}
 	replay := filepath.Join(verif, "evidence", "replay", prop+".json")
 	if len(failed) > 0 {
@@ -450,15 +452,15 @@ func finish(res *Result, prop, tier string, seed int, verif string, start time.T
 	}
 	if !noEvidence {
 		_ = os.MkdirAll(filepath.Join(verif, "evidence", "replay"), 0o755)
-		if len(failed) > 0 {
-			rb, _ := json.MarshalIndent(map[string]interface{}{"property": prop, "tier": tier, "failed": failed}, "", " ")
+		if len(failed) > 0 || len(res.Fatal) > 0 {
+			rb, _ := json.MarshalIndent(map[string]interface{}{"property": prop, "tier": tier, "failed": failed, "analysis_errors": res.Fatal}, "", " ")
 			_ = os.WriteFile(replay, rb, 0o644)
 		} else {
 			_ = os.Remove(replay)
 		}
 		writeEvidence(res, prop, tier, seed, verif, wall, len(failed), discharged, inst)
 	}
-	if len(failed) > 0 && code == 1 {
+	if code == 1 {
 		fmt.Printf("VIOLATION property=%s replay=%s\n", prop, replay)
 	}
 	if code == 0 {
